@@ -30,7 +30,13 @@ fn g<T>(f: impl FnOnce() -> Result<T, ParseError>, show: impl FnOnce(T) -> Strin
     match guard(|| f().map(show)) { None => "PANIC".into(), Some(Err(_)) => "E".into(), Some(Ok(s)) => s }
 }
 
-fn nlri_hex<O: AsRef<[u8]>>(n: &Nlri<O>) -> String { let mut v = Vec::new(); n.compose(&mut v).unwrap(); hex(&v) }
+// every item is printed with the variant it was reported as (family, ADD-PATH) and its composed octets: two families with the
+// same wire format (unicast / multicast) must not be confused
+fn nlri_hex<O: AsRef<[u8]>>(n: &Nlri<O>) -> String {
+    let mut v = Vec::new();
+    n.compose(&mut v).unwrap();
+    format!("{}~{}", nt_s(Some(n.nlri_type())), hex(&v))
+}
 
 fn items<'a, O: AsRef<[u8]>>(it: impl Iterator<Item = Result<Nlri<O>, ParseError>>, cap: usize) -> String {
     let mut v = vec![];
